@@ -15,7 +15,7 @@ use serde_json::{json, Value};
 use std::collections::BTreeMap;
 use std::sync::Mutex;
 
-pub const OPERANDS: [(&str, &str); 47] = [
+pub const OPERANDS: [(&str, &str); 50] = [
     ("r0", "reg"),
     ("r15", "reg"),
     ("r16", "reg"),
@@ -51,6 +51,9 @@ pub const OPERANDS: [(&str, &str); 47] = [
     ("1/0", "div0"),
     ("1%0", "div0"),
     ("-(-9223372036854775807-1)", "ovf"),
+    ("1<<63", "i64min"),
+    ("-9223372036854775807-1", "i64min"),
+    ("~0", "num"),
     ("undefined_name", "undef"),
     ("pc", "pc"),
     ("low(", "broken"),
@@ -190,6 +193,22 @@ fn structured_cases(ctx: &Ctx, scratch: &std::path::Path) -> Vec<Case> {
     add("recursion/set-self", ".set a = a\n.dw a\n".into());
     add("recursion/set-from-equ-cycle", ".equ a = b\n.equ b = a\n.set c = a\n".into());
     add("recursion/define-self", "#define a\n.dw a\n".into());
+    // breadth instead of depth: every symbol names the previous one twice (2^n evaluations when nothing is memoised)
+    for n in [16usize, 24, 40, 200] {
+        let mut t = String::from(".equ a0 = 1\n");
+        for i in 1..=n {
+            t.push_str(&format!(".equ a{} = a{} + a{}\n", i, i - 1, i - 1));
+        }
+        t.push_str(&format!(".dq a{} & 1\n", n));
+        add(&format!("recursion/equ-doubling/{}", n), t);
+        let mut t = String::from(".equ a0 = 0\n");
+        for i in 1..=n {
+            t.push_str(&format!(".equ a{} = a{} | a{}\n", i, i - 1, i - 1));
+        }
+        t.push_str(&format!(".if a{}\nnop\n.endif\nldi r16, a{}\n", n, n));
+        add(&format!("recursion/equ-doubling-in-if-and-instruction/{}", n), t);
+    }
+    add("recursion/macro-arg-doubling", ".macro m\n.dq @0\n.endm\n.equ a0 = 1\n.equ a1 = a0+a0\n.equ a2 = a1+a1\n.equ a3 = a2+a2\nm a3+a3\n".into());
     add("recursion/equ-label-same-name", "a: .equ a = a\n.dw a\n".into());
     // nesting ladders in expressions
     for d in [10usize, 100, 1000, 5000, 10000, 30000] {
@@ -594,7 +613,7 @@ pub fn run(ctx: &Ctx) -> i32 {
     ctx.exhaustive.store(true, std::sync::atomic::Ordering::Relaxed);
     fw::finish(
         ctx,
-        "isolated worker processes, one build at a time: (i) every one-line program <head> <operands> for 158 heads (all directives incl. unsupported/unknown ones, every mnemonic, a macro call, labelled forms) x operand tuples of length 0-2 over a 47-entry dictionary of valid, boundary and hostile operand texts, comma / `=` / blank separated, also inside .dseg/.eseg for data directives (complete), length 3 sampled (quick) or complete (thorough); (ii) ~290 structure-aware hostile programs (unbalanced and deeply nested conditionals/macros, self- and mutually recursive macros and .equ, expression ladders up to depth 30000, absurd .org/.byte operands, 60 KB tokens, odd bytes, self-including files); (iii) byte- and token-level mutations of valid generated programs; exhaustive refers to (i) lengths 0-2; distinct_nontrivial = dictionary programs + distinct structured constructs + distinct mutated texts",
+        "isolated worker processes, one build at a time: (i) every one-line program <head> <operands> for 158 heads (all directives incl. unsupported/unknown ones, every mnemonic, a macro call, labelled forms) x operand tuples of length 0-2 over a 50-entry dictionary of valid, boundary and hostile operand texts, comma / `=` / blank separated, also inside .dseg/.eseg for data directives (complete), length 3 sampled (quick) or complete (thorough); (ii) ~290 structure-aware hostile programs (unbalanced and deeply nested conditionals/macros, self- and mutually recursive macros and .equ, expression ladders up to depth 30000, absurd .org/.byte operands, 60 KB tokens, odd bytes, self-including files); (iii) byte- and token-level mutations of valid generated programs; exhaustive refers to (i) lengths 0-2; distinct_nontrivial = dictionary programs + distinct structured constructs + distinct mutated texts",
         &[
             "\"promptly\" is restated as bounded progress: <= 5e7 hook steps for inputs <= 64 KiB; memory \"out of proportion\" as > 256 MiB live heap (32 x the 8 MiB default flash)",
             "stack = 8 MiB main-thread default of the worker process; a wall-clock backstop firing alone is inconclusive",
